@@ -511,6 +511,19 @@ pub struct CaseInput {
     pub text: String,
     /// boundaries (indices into the token list, 0..=len) and pieces are chosen from this stream
     pub ins_seed: u64,
+    /// structured injection: the valid base text and the byte offset (a token boundary) at which
+    /// every word of the token table is injected
+    pub sweep: Option<Sweep>,
+    /// verdicts / notes computed before `run_case` (the sweep over the injected variants)
+    pub pre_fails: Vec<String>,
+    pub pre_notes: Vec<String>,
+}
+
+#[derive(Clone)]
+pub struct Sweep {
+    pub name: String,
+    pub base: String,
+    pub at: usize,
 }
 
 /// Run the real code on `input` and append the case block to `out`.  Returns false when an oracle
@@ -524,10 +537,13 @@ pub static MAX_PARSE_EVENTS: std::sync::atomic::AtomicUsize = std::sync::atomic:
 pub fn run_case(n: u64, input: &CaseInput, lang: &Lang, out: &mut Out, dump: bool) -> bool {
     let src = input.text.as_str();
     let t_start = std::time::Instant::now();
-    let mut fails: Vec<String> = Vec::new();
+    let mut fails: Vec<String> = input.pre_fails.clone();
     let mut nontrivial = false;
     out.line(format!("case {n}"));
     out.line(format!("# class {} {}", input.class, input.note));
+    for l in &input.pre_notes {
+        out.line(format!("# {l}"));
+    }
     out.count(&format!("class_{}", input.class));
     out.add("bytes", src.len() as u64);
     // ---- lexer ----
@@ -985,7 +1001,7 @@ const LITERALS: &[&str] = &[
 ];
 
 const TRIVIA_SAMPLES: &[&str] = &[
-    " ", " ", " ", "\n", "\n", "\t", "\r\n", "  ", "// c\n", "// c", "//", "(* c *)", "(* (* n *) *)", "(* open", "(*", "(*)", "*)",
+    " ", " ", " ", "\n", "\n", "\t", "\r\n", "  ", "// c\n", "// c", "//", "(* c *)", "(* (* n *) *)", "(* open", "(*", "(*)", "*)", "(* \u{e9}", "/* \u{1F600}",
     "/* c */", "/* /* n */ */", "/* open", "/*", "/*/", "*/", "{pragma}", "{}", "{ open", "}", "{a}{b}", "(* \u{1F600} *)",
 ];
 
@@ -1732,6 +1748,287 @@ fn gen_valid(r: &mut Rng, max: usize) -> String {
     }
 }
 
+// ---- structured injection ("sweep") --------------------------------------------------------------
+//
+// Every grammar loop that expects "an item until END_x" (CASE branches and labels, VAR declarations,
+// struct fields, enum values, argument lists, index lists, the statement list of every block kind,
+// TYPE declarations, CONFIGURATION / RESOURCE / TASK / PROGRAM items, access and config declarations,
+// namespace / using items, class / interface members, property accessors, actions) relies on its item
+// parser making progress.  A sweep case takes one valid snippet and one token boundary and injects
+// EVERY word of the real token table (plus literal samples, end of input, deletion and duplication of
+// the next token) at that boundary; over a run the (snippet, boundary) pairs are enumerated without
+// repetition, so each item position and each position right after an opener meets each closer.
+
+const SNIPPETS: &[(&str, &str)] = &[
+    ("case", "PROGRAM p CASE x OF 1: y := 1; 2, 3: z := 2; 4..6: f(y); ELSE y := 0; END_CASE; END_PROGRAM"),
+    ("case-enum-nested", "PROGRAM p CASE a OF E.A: CASE b OF 1: x := 1; END_CASE; 2: IF c THEN x := 3; END_IF; END_CASE END_PROGRAM"),
+    ("if", "PROGRAM p IF a > 1 THEN x := 1; ELSIF b THEN x := 2; y := 3; ELSE x := 4; END_IF; END_PROGRAM"),
+    ("for", "PROGRAM p FOR i := 1 TO 10 BY 2 DO s := s + i; EXIT; END_FOR; END_PROGRAM"),
+    ("while-repeat", "PROGRAM p WHILE a < 3 DO a := a + 1; CONTINUE; END_WHILE; REPEAT b := b - 1; UNTIL b = 0 END_REPEAT; END_PROGRAM"),
+    ("var-blocks", "PROGRAM p VAR a, b : INT := 1; c AT %IX0.1 : BOOL; END_VAR VAR CONSTANT k : DINT := 16#FF; END_VAR a := b; END_PROGRAM"),
+    ("array-types", "PROGRAM p VAR d : ARRAY[1..3, 0..1] OF REAL; s : STRING[10]; q : POINTER TO INT; r : REF_TO S; n : INT (0..10); END_VAR END_PROGRAM"),
+    ("function", "FUNCTION f : INT VAR_INPUT a : INT; b : REAL := 1.5; END_VAR VAR_IN_OUT io : WORD; END_VAR f := a + 1; RETURN; END_FUNCTION"),
+    ("calls", "PROGRAM p x := f(1, 2 + 3, g(4)); fb(IN := a, Q => q); y := arr[1, i + 1][2]; z := s.f.g(1).h^; w := ADR(v) + SIZEOF(INT); END_PROGRAM"),
+    ("exprs", "PROGRAM p x := -a ** 2 * (b + c) / d MOD 3; y := NOT (a AND b) OR c XOR d & e; z := a = b OR a <> c; t := INT#5 + REAL#-1.5 + E#Red; END_PROGRAM"),
+    ("struct-union", "TYPE S : STRUCT a : INT; b : ARRAY[0..3] OF BOOL; c : T := 1; END_STRUCT; U : UNION w : WORD; r : REAL; END_UNION; END_TYPE"),
+    ("enum-alias", "TYPE E : (Red, Green := 2, Blue) := Red; F : INT (A := 1, B := 2); A : ARRAY[1..2] OF INT; T : INT; END_TYPE"),
+    ("fb-method", "FUNCTION_BLOCK fb EXTENDS base IMPLEMENTS I1, I2 VAR n : INT; END_VAR METHOD PUBLIC m : BOOL VAR_INPUT a : INT; END_VAR m := a > n; END_METHOD n := n + 1; END_FUNCTION_BLOCK"),
+    ("property", "FUNCTION_BLOCK fb PROPERTY Value : INT GET Value := n; END_GET SET n := Value; END_SET END_PROPERTY END_FUNCTION_BLOCK"),
+    ("class", "CLASS FINAL C EXTENDS B IMPLEMENTS I VAR PRIVATE x : INT; END_VAR METHOD PUBLIC OVERRIDE Run x := x + 1; SUPER.Run(); THIS.x := 0; END_METHOD PROTECTED METHOD ABSTRACT Stop END_METHOD END_CLASS"),
+    ("interface", "INTERFACE I EXTENDS J METHOD m : INT VAR_INPUT a : INT; END_VAR END_METHOD PROPERTY P : BOOL GET END_GET END_PROPERTY END_INTERFACE"),
+    ("namespace-using", "USING A.B, C; NAMESPACE N.M USING D; TYPE T : INT; END_TYPE FUNCTION f : INT f := 1; END_FUNCTION NAMESPACE Inner PROGRAM q END_PROGRAM END_NAMESPACE END_NAMESPACE"),
+    ("configuration", "CONFIGURATION Cfg VAR_GLOBAL g : INT; END_VAR RESOURCE Res ON PLC TASK Fast(INTERVAL := T#10ms, PRIORITY := 1); PROGRAM P1 WITH Fast : Main(a := 1, b => g); PROGRAM P2 : Other; END_RESOURCE END_CONFIGURATION"),
+    ("access-config", "CONFIGURATION Cfg VAR_ACCESS A1 : Res.P1.x : INT READ_WRITE; A2 : Res.P1.arr[1] : BOOL READ_ONLY; END_VAR VAR_CONFIG Res.P1.y : INT := 1; Res.P1.z AT %QX0.0 : BOOL; END_VAR END_CONFIGURATION"),
+    ("action", "FUNCTION_BLOCK fb VAR x : INT; END_VAR x := 1; ACTION Reset x := 0; y := 0; END_ACTION ACTION Inc x := x + 1; END_ACTION END_FUNCTION_BLOCK"),
+    ("labels-jmp", "PROGRAM p start: x := x + 1; IF x < 3 THEN JMP start; END_IF; done: ; RETURN; END_PROGRAM"),
+    ("test-pou", "TEST_PROGRAM t VAR r : INT; END_VAR r := f(1); END_TEST_PROGRAM TEST_FUNCTION_BLOCK tf VAR a : BOOL; END_VAR a := TRUE; END_TEST_FUNCTION_BLOCK"),
+    ("initializers", "PROGRAM p VAR a : INT := f(1, 2) + 3; t : TIME := T#1s; r : REF_TO INT := REF(a); w : WSTRING[5] := \"ab\"; END_VAR r^ := 2; q^.x := 3; r ?= q; END_PROGRAM"),
+    ("nested-one-liner", "PROGRAM p IF a THEN CASE b OF 1: FOR i := 1 TO 2 DO WHILE c DO REPEAT x := f(a[1], (2)); UNTIL d END_REPEAT; END_WHILE; END_FOR; END_CASE; END_IF; END_PROGRAM"),
+];
+
+/// `at` value of a sweep over every boundary of the snippet (with the focused word list).
+pub const ALL_BOUNDARIES: usize = usize::MAX;
+/// Thorough tier: the whole focused list (spaced, glued, followed by end of input) at every boundary.
+/// Quick tier: the core list at every boundary plus a slice of the rest that rotates with seed and
+/// boundary, so that repeated runs cover the whole list.
+pub static SWEEP_FULL: std::sync::atomic::AtomicBool = std::sync::atomic::AtomicBool::new(false);
+pub static SWEEP_SEED: std::sync::atomic::AtomicU64 = std::sync::atomic::AtomicU64::new(0);
+
+/// Closers, separators and continuation keywords: injected at every boundary of every snippet in
+/// every run.
+const CORE_WORDS: &[&str] = &[
+    ")", "]", ";", ":", ",", ":=", "(", "[", "THEN", "DO", "OF", "TO", "BY", "ELSE", "ELSIF", "UNTIL", "END_IF", "END_CASE", "END_VAR", "END_PROGRAM",
+];
+
+/// Words injected at one boundary: the whole `#[token]` table plus literal / identifier / trivia samples.
+fn sweep_words(ctx: &Ctx) -> Vec<String> {
+    let mut w: Vec<String> = ctx.words.clone();
+    for x in ["x", "1", "1.", "1..2", "1.5", "16#FF", "'s'", "\"w\"", "'open", "T#1s", "D#2024-01-15", "%IX0.0", "INT#", "INT#5", "(* c *)", "// c\n", "{p}", "\u{e9}", "$", "\n", "(* \u{e9}", "/* \u{1F600}"] {
+        w.push(x.to_string());
+    }
+    w
+}
+
+/// The focused list injected at EVERY boundary of every snippet: all punctuation of the real table,
+/// every `END_*` keyword and the keywords that open, continue or close a construct.
+fn focused_words(ctx: &Ctx) -> Vec<String> {
+    const STRUCTURAL: &[&str] = &[
+        "THEN", "DO", "OF", "TO", "BY", "ELSE", "ELSIF", "UNTIL", "WITH", "ON", "AT", "CASE", "IF", "FOR", "WHILE", "REPEAT", "VAR", "STRUCT",
+        "TYPE", "PROGRAM", "FUNCTION", "METHOD", "ACTION", "RESOURCE", "TASK", "GET", "SET", "USING", "NAMESPACE",
+    ];
+    ctx.words
+        .iter()
+        .filter(|w| !w.chars().all(|c| c.is_ascii_alphanumeric() || c == '_') || w.starts_with("END_") || STRUCTURAL.contains(&w.as_str()))
+        .cloned()
+        .collect()
+}
+
+fn next_token_end(toks: &[Token], at: usize) -> usize {
+    toks.iter()
+        .find(|t| usize::from(t.range.start()) == at)
+        .map(|t| usize::from(t.range.end()))
+        .unwrap_or(at)
+}
+
+fn significant_boundaries(text: &str) -> Vec<usize> {
+    let mut b: Vec<usize> = lex(text).iter().filter(|t| !t.kind.is_trivia()).map(|t| usize::from(t.range.start())).collect();
+    b.push(text.len());
+    b
+}
+
+/// The variants of `base` at boundary `at`: (label, text).
+fn variants_at(base: &str, btoks: &[Token], at: usize, words: &[String], rich: bool, structural: bool) -> Vec<(String, String)> {
+    let (pre, post) = (&base[..at], &base[at..]);
+    let mut v = Vec::new();
+    for w in words {
+        v.push((format!("inject {w:?} at {at}"), format!("{pre} {w} {post}")));
+        if rich && !w.chars().all(|c| c.is_ascii_alphanumeric() || c == '_') {
+            v.push((format!("inject-glued {w:?} at {at}"), format!("{pre}{w}{post}")));
+        }
+        if rich && matches!(w.as_str(), ")" | "]" | "THEN" | "DO" | "OF" | "TO" | "BY" | "," | ";" | ":" | ":=" | "(" | "[" | "ELSE" | "UNTIL") {
+            // the injected word is the last token of the input
+            v.push((format!("inject-then-eof {w:?} at {at}"), format!("{pre} {w}")));
+        }
+    }
+    v.push((format!("eof at {at}"), pre.to_string()));
+    if !structural {
+        return v;
+    }
+    let e = next_token_end(btoks, at);
+    v.push((format!("delete-next-token at {at}"), format!("{pre}{}", &base[e..])));
+    v.push((format!("duplicate-next-token at {at}"), format!("{pre}{} {post}", &base[at..e])));
+    v
+}
+
+/// Trivia pieces inserted at the sweep position of the (error-free) base text.
+const SWEEP_TRIVIA: &[&str] = &["\n", " (* c *) ", "\r\n\t", " /* c */\n"];
+
+/// The property's own statement on one text with a single parse (no model operations, no event
+/// hook): returns what fails.
+fn quick_check(lang: &Lang, src: &str) -> (Vec<String>, Option<ParseObs>) {
+    let mut fails = Vec::new();
+    let ltoks = match catch_unwind(AssertUnwindSafe(|| lex(src))) {
+        Ok(t) => t,
+        Err(_) => return (vec!["lexer-panic".into()], None),
+    };
+    let toks: Vec<(u16, usize, usize)> = ltoks.iter().map(tok3).collect();
+    if !tiles(&toks, src.len()) {
+        fails.push("token-tiling".into());
+    }
+    if !toks.iter().all(|t| src.is_char_boundary(t.1) && src.is_char_boundary(t.2)) {
+        fails.push("token-off-char-boundary".into());
+        return (fails, None);
+    }
+    let p = match observe_parse(src) {
+        Some(p) => p,
+        None => {
+            fails.push("parse-panic".into());
+            return (fails, None);
+        }
+    };
+    if !p.text_eq {
+        fails.push("tree-text-differs-from-input".into());
+    }
+    let mut same = p.leaves.len() == ltoks.len();
+    if same {
+        for (t, l) in ltoks.iter().zip(p.leaves.iter()) {
+            if (trust_syntax::syntax::SyntaxKind::from(t.kind) as u16, usize::from(t.range.start()), usize::from(t.range.end())) != *l {
+                same = false;
+                break;
+            }
+        }
+    }
+    if !same {
+        fails.push("tree-leaves-differ-from-lexer-tokens".into());
+    }
+    if !p.errors.is_empty() {
+        let sig: std::collections::HashSet<(usize, usize)> = toks.iter().filter(|t| !lang.is_trivia(t.0)).map(|t| (t.1, t.2)).collect();
+        for (a, b, _) in &p.errors {
+            if !(a <= b && *b <= src.len()) {
+                fails.push("error-range-outside-text".into());
+            } else if !(sig.contains(&(*a, *b)) || (*a == 0 && *b == 0)) {
+                fails.push("error-range-not-a-token-range".into());
+            }
+        }
+    }
+    fails.dedup();
+    (fails, Some(p))
+}
+
+fn write_progress(path: &str, idx: usize, label: &str, text: &str) {
+    let _ = std::fs::write(path, format!("{idx} {} {}", hex(label.as_bytes()), hex(text.as_bytes())));
+}
+
+/// Run the sweep (child process only): returns (failures, notes).
+fn run_sweep(ctx: &Ctx, lang: &Lang, sw: &Sweep, progress: &str, out: &mut Out) -> (Vec<String>, Vec<String>) {
+    let mut fails: Vec<String> = Vec::new();
+    let btoks = lex(&sw.base);
+    let full = SWEEP_FULL.load(std::sync::atomic::Ordering::Relaxed);
+    let seed = SWEEP_SEED.load(std::sync::atomic::Ordering::Relaxed) as usize;
+    let focused = focused_words(ctx);
+    let rest: Vec<String> = focused.iter().filter(|w| !CORE_WORDS.contains(&w.as_str())).cloned().collect();
+    let all = sw.at == ALL_BOUNDARIES;
+    let positions = if all { significant_boundaries(&sw.base) } else { vec![sw.at] };
+    let table = sweep_words(ctx);
+    let trivia: &[&str] = if full || !all { SWEEP_TRIVIA } else { &SWEEP_TRIVIA[..2] };
+    write_progress(progress, 0, "base", &sw.base);
+    let (bf, base) = quick_check(lang, &sw.base);
+    if !bf.is_empty() {
+        fails.push(format!("sweep base snippet {}: {}", sw.name, bf.join(",")));
+    }
+    let base_ok = base.as_ref().map(|b| b.errors.is_empty()).unwrap_or(false);
+    if !base_ok {
+        out.count("sweep_base_with_errors");
+        if sw.at == ALL_BOUNDARIES {
+            // the built-in snippets are meant to be valid: say so loudly (not a property failure)
+            eprintln!("c12: snippet {} is not error-free: {:?}", sw.name, base.as_ref().map(|b| &b.errors));
+        }
+    }
+    let bsig: Vec<(u16, usize, usize)> = btoks.iter().map(tok3).collect();
+    let (mut checked, mut triv, mut idx) = (0u64, 0u64, 1usize);
+    for (pi, at) in positions.into_iter().enumerate() {
+        let words: Vec<String> = if !all {
+            table.clone()
+        } else if full {
+            focused.clone()
+        } else {
+            let mut w: Vec<String> = CORE_WORDS.iter().map(|x| x.to_string()).collect();
+            for j in 0..3 {
+                if !rest.is_empty() {
+                    w.push(rest[(seed * 7 + pi * 3 + j) % rest.len()].clone());
+                }
+            }
+            w
+        };
+        for (label, text) in variants_at(&sw.base, &btoks, at, &words, all && full, full || !all) {
+            write_progress(progress, idx, &label, &text);
+            idx += 1;
+            let (f, _) = quick_check(lang, &text);
+            checked += 1;
+            if !f.is_empty() && fails.len() < 4 {
+                fails.push(format!("sweep {label}: {} text={}", f.join(","), hex(text.as_bytes())));
+            }
+        }
+        // trivia at this boundary of the error-free base: same shape, still error-free
+        if let (true, Some(b)) = (base_ok, base.as_ref()) {
+            for piece in trivia {
+                let t = format!("{}{}{}", &sw.base[..at], piece, &sw.base[at..]);
+                write_progress(progress, idx, "trivia", &t);
+                idx += 1;
+                let ttoks: Vec<(u16, usize, usize)> = lex(&t).iter().map(tok3).collect();
+                if significant(lang, &sw.base, &bsig) != significant(lang, &t, &ttoks) {
+                    continue;
+                }
+                triv += 1;
+                match observe_parse(&t) {
+                    Some(q) => {
+                        if q.dump.shape != b.dump.shape && fails.len() < 4 {
+                            fails.push(format!("sweep trivia {piece:?} at {at} changes shape text={}", hex(t.as_bytes())));
+                        } else if !q.errors.is_empty() && fails.len() < 4 {
+                            fails.push(format!("sweep trivia {piece:?} at {at} introduces errors text={}", hex(t.as_bytes())));
+                        }
+                    }
+                    None => fails.push(format!("sweep trivia {piece:?} at {at}: parse panic")),
+                }
+            }
+        }
+    }
+    out.add("sweep_variants_checked", checked);
+    out.add("sweep_trivia_checked", triv);
+    let notes = vec![format!("sweep snippet={} variants={} trivia={}", sw.name, checked, triv)];
+    (fails, notes)
+}
+
+/// The (snippet, boundary) pair of sweep case `n`: built-in snippets are enumerated without
+/// repetition (stride coprime to the number of pairs); one case in four sweeps a corpus file instead.
+fn gen_sweep(seed: u64, n: u64, r: &mut Rng, ctx: &Ctx) -> Sweep {
+    if r.chance(1, 3) {
+        let small: Vec<&(String, String)> = ctx.corpus.iter().filter(|(_, t)| t.len() <= 1500).collect();
+        if !small.is_empty() {
+            let (name, text) = *r.pick(&small);
+            let b = significant_boundaries(text);
+            return Sweep {
+                name: name.clone(),
+                base: text.clone(),
+                at: b[r.below(b.len() as u64) as usize],
+            };
+        }
+    }
+    let pairs: Vec<(usize, usize)> = SNIPPETS
+        .iter()
+        .enumerate()
+        .flat_map(|(i, (_, t))| significant_boundaries(t).into_iter().map(move |b| (i, b)))
+        .collect();
+    // 7919 is prime: consecutive case numbers walk through the pairs without repetition
+    let idx = (n.wrapping_mul(7919).wrapping_add(seed.wrapping_mul(104_729))) % pairs.len() as u64;
+    let (i, at) = pairs[idx as usize];
+    Sweep {
+        name: SNIPPETS[i].0.to_string(),
+        base: SNIPPETS[i].1.to_string(),
+        at,
+    }
+}
+
 // ---- deep nesting ---------------------------------------------------------------------------------
 
 /// Depths that are claimed (DESIGN.md C12): expressions are guarded by MAX_EXPRESSION_DEPTH = 1024
@@ -1855,6 +2152,8 @@ pub fn gen_case(seed: u64, n: u64, ctx: &Ctx) -> CaseInput {
     const FIXED: &[&str] = &[
         "", " ", "\n", "1.", "1..", "1..2", "1...2", "x := 1.;", "ARRAY[1..5]", "1.e", "\u{feff}PROGRAM p END_PROGRAM", "(*", "'", "\"",
         "PROGRAM", "END_PROGRAM", ";", "PROGRAM p x := ; END_PROGRAM", "\0", "\u{1F600}", "a.1.2", "%IX0.", "T#1s.", "16#FF.", "1.\n.", "1. .", "1.(*c*).",
+        // unterminated / nested comments, pragmas and strings that end in a multi-byte character
+        "(* \u{e9}", "/* x \u{1F600}", "(* (* \u{e9} *)", "/* /* */ \u{4e2d}", "(*\u{e9}", "x (* a *) (* \u{1F600}", "{ \u{e9}", "'\u{e9}", "\"\u{1F600}", "// \u{e9}", "(* \u{e9} *)", "(**\u{e9}*",
     ];
     if (n as usize) < FIXED.len() {
         return CaseInput {
@@ -1862,26 +2161,56 @@ pub fn gen_case(seed: u64, n: u64, ctx: &Ctx) -> CaseInput {
             note: String::new(),
             text: FIXED[n as usize].to_string(),
             ins_seed,
+            sweep: None,
+            pre_fails: Vec::new(),
+            pre_notes: Vec::new(),
         };
     }
+    let k = n as usize - FIXED.len();
+    if k < SNIPPETS.len() {
+        // one case per built-in snippet, in every run: every boundary x the focused word list
+        return CaseInput {
+            class: "sweep",
+            note: format!("snippet={} all-boundaries", SNIPPETS[k].0),
+            text: SNIPPETS[k].1.to_string(),
+            ins_seed,
+            sweep: Some(Sweep {
+                name: SNIPPETS[k].0.to_string(),
+                base: SNIPPETS[k].1.to_string(),
+                at: ALL_BOUNDARIES,
+            }),
+            pre_fails: Vec::new(),
+            pre_notes: Vec::new(),
+        };
+    }
+    let mut sweep = None;
     let (class, note, text) = match r.below(100) {
-        0..=11 => ("unicode", String::new(), gen_unicode(&mut r)),
-        12..=29 => ("soup", String::new(), gen_soup(&mut r, ctx)),
-        30..=41 => {
+        0..=10 => ("unicode", String::new(), gen_unicode(&mut r)),
+        11..=27 => ("soup", String::new(), gen_soup(&mut r, ctx)),
+        28..=38 => {
             let (note, t) = gen_corpus(&mut r, ctx, 0);
             ("corpus", note, t)
         }
-        42..=71 => {
+        39..=65 => {
             let k = 1 + r.below(4);
             let (note, t) = gen_corpus(&mut r, ctx, k);
             ("corpus-mutated", note, t)
         }
-        72..=89 => ("valid", String::new(), gen_valid(&mut r, ctx.max_bytes)),
-        90..=94 => {
+        66..=85 => ("valid", String::new(), gen_valid(&mut r, ctx.max_bytes)),
+        86..=91 => {
             let t = gen_valid(&mut r, ctx.max_bytes);
             let mut notes = String::new();
             let t = mutate(&mut r, ctx, t, &mut notes);
             ("valid-mutated", notes, t)
+        }
+        92..=94 => {
+            let sw = gen_sweep(seed, n, &mut r, ctx);
+            // the case's own text (full treatment incl. the model operations): one random word injected
+            let w = soup_word(&mut r, ctx);
+            let t = format!("{} {} {}", &sw.base[..sw.at], w, &sw.base[sw.at..]);
+            let note = format!("snippet={} at={} own-word={:?}", sw.name, sw.at, w);
+            sweep = Some(sw);
+            ("sweep", note, t)
         }
         _ => {
             let (note, t) = gen_deep(&mut r);
@@ -1893,12 +2222,24 @@ pub fn gen_case(seed: u64, n: u64, ctx: &Ctx) -> CaseInput {
         note,
         text: if class == "deep" { text } else { clip(text, ctx.max_bytes) },
         ins_seed,
+        sweep,
+        pre_fails: Vec::new(),
+        pre_notes: Vec::new(),
     }
 }
 
 // ------------------------------------------------------------------------------------------------
 // driver
 // ------------------------------------------------------------------------------------------------
+
+/// Resident set size of this process (0 if /proc is not available).
+fn rss_bytes() -> u64 {
+    std::fs::read_to_string("/proc/self/statm")
+        .ok()
+        .and_then(|s| s.split(' ').nth(1).and_then(|p| p.parse::<u64>().ok()))
+        .map(|pages| pages * 4096)
+        .unwrap_or(0)
+}
 
 fn crashed_case(n: u64, input: &CaseInput, lang: &Lang, out: &mut Out, why: &str) {
     out.line(format!("case {n}"));
@@ -1922,6 +2263,8 @@ pub fn run(args: &Args) -> i32 {
     let max_bytes = args.extra_usize("maxbytes", 4096);
     MAX_MODEL_TOKENS.store(args.extra_usize("maxmodeltokens", 3000), std::sync::atomic::Ordering::Relaxed);
     MAX_PARSE_EVENTS.store(args.extra_usize("maxparseevents", 4000), std::sync::atomic::Ordering::Relaxed);
+    SWEEP_FULL.store(args.extra_usize("sweepfull", 0) != 0, std::sync::atomic::Ordering::Relaxed);
+    SWEEP_SEED.store(args.seed, std::sync::atomic::Ordering::Relaxed);
     let ctx = match Ctx::load(&repo, max_bytes) {
         Ok(c) => c,
         Err(e) => {
@@ -1979,6 +2322,9 @@ pub fn run(args: &Args) -> i32 {
             note: path.clone(),
             text,
             ins_seed: args.seed,
+            sweep: None,
+            pre_fails: Vec::new(),
+            pre_notes: Vec::new(),
         };
         let ok = run_case(0, &input, &lang, &mut out, dump);
         out.finish(&args.out);
@@ -1987,15 +2333,36 @@ pub fn run(args: &Args) -> i32 {
     }
 
     if is_child {
-        // exactly one case, on this (main) thread with the process's own stack
+        // exactly one case, on this (main) thread with the process's own stack, under an address-space
+        // cap so that a parser that allocates without end dies quickly instead of taking the machine
+        let cap = (args.extra_usize("memcap_mb", 3072) as u64) << 20;
+        let lim = libc::rlimit {
+            rlim_cur: cap,
+            rlim_max: cap,
+        };
+        // SAFETY: plain setrlimit call on this process
+        unsafe {
+            libc::setrlimit(libc::RLIMIT_AS, &lim);
+        }
         let n = args.only.expect("--child needs --only");
-        let input = gen_case(args.seed, n, &ctx);
+        let progress = args.extra.get("progress").cloned().unwrap_or_else(|| format!("{}.progress", args.out));
+        let mut input = gen_case(args.seed, n, &ctx);
+        write_progress(&progress, 0, "own", &input.text);
+        if let Some(sw) = input.sweep.clone() {
+            let (f, notes) = run_sweep(&ctx, &lang, &sw, &progress, &mut out);
+            input.pre_fails = f;
+            input.pre_notes = notes;
+            write_progress(&progress, usize::MAX, "own", &input.text);
+        }
         run_case(n, &input, &lang, &mut out, dump);
         out.finish(&args.out);
         return 0;
     }
 
     let exe = std::env::current_exe().expect("current_exe");
+    let sub_timeout = std::time::Duration::from_secs(args.extra_usize("subtimeout", 20) as u64);
+    let mem_growth_limit = (args.extra_usize("memgrowth_mb", 1536) as u64) << 20;
+    let mut crashes = 0u32;
     let lang_ref: &'static Lang = Box::leak(Box::new(Lang {
         int: lang.int,
         dot: lang.dot,
@@ -2006,30 +2373,72 @@ pub fn run(args: &Args) -> i32 {
     for n in args.case_numbers() {
         let input = gen_case(args.seed, n, &ctx);
         out.count("cases");
-        if input.class == "deep" {
-            // child process: a stack overflow (SIGSEGV / abort) is an observable, not a harness crash
+        if input.class == "deep" || input.class == "sweep" {
+            // child process: a stack overflow (SIGSEGV / abort), an allocation failure under the memory cap
+            // or a hang is an observable, not a harness crash.  The child reports the (sub-)input it is
+            // working on through a progress file; no progress within the deadline = non-termination.
             let tmp = format!("{}.child{}", args.out, n);
+            let progress = if std::path::Path::new("/dev/shm").is_dir() {
+                format!("/dev/shm/vharness-c12-{}-{n}.progress", std::process::id())
+            } else {
+                format!("{tmp}.progress")
+            };
+            let _ = std::fs::remove_file(&progress);
+            let deadline = if input.class == "sweep" { sub_timeout } else { timeout };
+            // snippets are tiny: a sweep child that needs more than 1 GiB is running away
+            let memcap = if input.class == "sweep" { args.extra_usize("sweepmemcap_mb", 1024) } else { args.extra_usize("memcap_mb", 3072) };
             // (a failure to *start* the child is a harness problem, not an observation: retry, then give up)
-            let mut st = Err(std::io::Error::other("not started"));
+            let mut spawned = Err(std::io::Error::other("not started"));
             for attempt in 0..4 {
-                st = std::process::Command::new(&exe)
+                spawned = std::process::Command::new(&exe)
                     .args(["c12", "--seed", &args.seed.to_string(), "--cases", &args.cases.to_string(), "--only", &n.to_string()])
                     .args(["--out", &tmp, "--child", "1", "--repo", &repo, "--maxbytes", &max_bytes.to_string()])
                     .args(["--maxmodeltokens", &args.extra_usize("maxmodeltokens", 3000).to_string()])
                     .args(["--maxparseevents", &args.extra_usize("maxparseevents", 4000).to_string()])
+                    .args(["--memcap_mb", &memcap.to_string()])
+                    .args(["--sweepfull", &args.extra_usize("sweepfull", 0).to_string()])
+                    .args(["--progress", &progress])
                     .stdout(std::process::Stdio::null())
                     .stderr(std::process::Stdio::null())
-                    .status();
-                if st.is_ok() {
+                    .spawn();
+                if spawned.is_ok() {
                     break;
                 }
                 std::thread::sleep(std::time::Duration::from_millis(200 << attempt));
             }
-            if let Err(e) = &st {
-                eprintln!("c12: cannot start the child process for case {n}: {e}");
-                return 3;
-            }
-            let ok = matches!(&st, Ok(s) if s.success());
+            let mut child = match spawned {
+                Ok(c) => c,
+                Err(e) => {
+                    eprintln!("c12: cannot start the child process for case {n}: {e}");
+                    return 3;
+                }
+            };
+            let mut last_prog = String::new();
+            let mut last_change = std::time::Instant::now();
+            let mut hung = false;
+            let mut ticks = 0u32;
+            let status = loop {
+                match child.try_wait() {
+                    Ok(Some(st)) => break Some(st),
+                    Ok(None) => {}
+                    Err(_) => break None,
+                }
+                std::thread::sleep(std::time::Duration::from_millis(5));
+                ticks += 1;
+                if ticks % 40 == 0 {
+                    let prog = std::fs::read_to_string(&progress).unwrap_or_default();
+                    if prog != last_prog {
+                        last_prog = prog;
+                        last_change = std::time::Instant::now();
+                    } else if last_change.elapsed() > deadline {
+                        let _ = child.kill();
+                        let _ = child.wait();
+                        hung = true;
+                        break None;
+                    }
+                }
+            };
+            let ok = matches!(&status, Some(s) if s.success());
             match (ok, std::fs::read_to_string(&tmp)) {
                 (true, Ok(block)) => {
                     out.buf.push_str(&block);
@@ -2044,11 +2453,40 @@ pub fn run(args: &Args) -> i32 {
                     }
                 }
                 _ => {
-                    crashed_case(n, &input, &lang, &mut out, &format!("child process died ({st:?}) on a nesting case within the stated depth"));
+                    // which (sub-)input was the child working on?
+                    let prog = std::fs::read_to_string(&progress).unwrap_or_default();
+                    let mut parts = prog.split(' ');
+                    let _idx = parts.next();
+                    let label = parts.next().map(|h| String::from_utf8_lossy(&crate::util::unhex(h)).to_string()).unwrap_or_default();
+                    let text = parts.next().map(|h| String::from_utf8_lossy(&crate::util::unhex(h)).to_string());
+                    let mut witness = CaseInput {
+                        class: input.class,
+                        note: format!("{} [{}]", input.note, label),
+                        text: text.unwrap_or_else(|| input.text.clone()),
+                        ins_seed: input.ins_seed,
+                        sweep: None,
+                        pre_fails: Vec::new(),
+                        pre_notes: Vec::new(),
+                    };
+                    if witness.text.len() > 64 * 1024 {
+                        witness.text.truncate(char_boundary_at_or_before(&witness.text, 64 * 1024));
+                    }
+                    let why = if hung {
+                        format!("no progress within {} s on this text (non-termination); child killed", deadline.as_secs())
+                    } else {
+                        format!("child process died ({status:?}) while parsing this text (stack overflow, allocation failure under the {memcap} MiB address-space cap = run-away allocation, or abort)")
+                    };
+                    crashed_case(n, &witness, &lang, &mut out, &why);
+                    crashes += 1;
                 }
             }
             let _ = std::fs::remove_file(&tmp);
+            let _ = std::fs::remove_file(&progress);
             let _ = std::fs::remove_file(format!("{tmp}.stats.json"));
+            if crashes >= 3 {
+                eprintln!("c12: {crashes} crashing / hanging inputs found; stopping the run early");
+                break;
+            }
             continue;
         }
         // worker thread + watchdog
@@ -2058,6 +2496,9 @@ pub fn run(args: &Args) -> i32 {
             note: input.note.clone(),
             text: input.text.clone(),
             ins_seed: input.ins_seed,
+            sweep: None,
+            pre_fails: Vec::new(),
+            pre_notes: Vec::new(),
         };
         let handle = std::thread::Builder::new()
             .stack_size(8 << 20)
@@ -2067,7 +2508,28 @@ pub fn run(args: &Args) -> i32 {
                 let _ = tx.send(o);
             })
             .expect("spawn");
-        match rx.recv_timeout(timeout) {
+        let started = std::time::Instant::now();
+        let rss0 = rss_bytes();
+        let verdict = loop {
+            match rx.recv_timeout(std::time::Duration::from_millis(50)) {
+                Ok(o) => break Ok(o),
+                Err(std::sync::mpsc::RecvTimeoutError::Timeout) => {
+                    if started.elapsed() > timeout {
+                        break Err(format!("no answer within {} s (non-termination)", timeout.as_secs()));
+                    }
+                    let grown = rss_bytes().saturating_sub(rss0);
+                    if grown > mem_growth_limit {
+                        break Err(format!(
+                            "memory grew by {} MiB in {:.1} s while handling this text (run-away allocation / non-termination)",
+                            grown >> 20,
+                            started.elapsed().as_secs_f64()
+                        ));
+                    }
+                }
+                Err(std::sync::mpsc::RecvTimeoutError::Disconnected) => break Err(String::new()),
+            }
+        };
+        match verdict {
             Ok(o) => {
                 let _ = handle.join();
                 out.buf.push_str(&o.buf);
@@ -2075,16 +2537,16 @@ pub fn run(args: &Args) -> i32 {
                     out.add(&k, v);
                 }
             }
-            Err(std::sync::mpsc::RecvTimeoutError::Timeout) => {
-                crashed_case(n, &input, &lang, &mut out, &format!("no answer within {} s (non-termination)", timeout.as_secs()));
-                out.finish(&args.out);
-                eprintln!("c12: case {n} did not terminate; stopping the run");
-                // the stuck thread cannot be cancelled: leave through exit
-                std::process::exit(0);
-            }
-            Err(std::sync::mpsc::RecvTimeoutError::Disconnected) => {
+            Err(why) if why.is_empty() => {
                 let _ = handle.join();
                 crashed_case(n, &input, &lang, &mut out, "worker thread died without an answer");
+            }
+            Err(why) => {
+                crashed_case(n, &input, &lang, &mut out, &why);
+                out.finish(&args.out);
+                eprintln!("c12: case {n}: {why}; stopping the run");
+                // the stuck thread cannot be cancelled: leave through exit
+                std::process::exit(0);
             }
         }
     }
